@@ -2088,6 +2088,49 @@ pub fn build(full_name: &str, level: u8) -> Option<Scenario> {
                 nd.heartbeat_tick = if n.contains("-hb2") { 2 } else { 1 };
             }
             s.prefix = vec![Action::Timeout(1), Action::Settle];
+            if n.contains("-stalegrant") {
+                // Before node 1 was elected, node 3 pre-campaigned for term 2 and nodes 1 (then a
+                // candidate) and 2 (no leader known) granted; both grants are still in flight.
+                // Node 1 then won term 1 and node 3 follows it.
+                s.prefix = vec![
+                    Action::Timeout(1),
+                    Action::Settle0(1),
+                    Action::Deliver(1, 2),
+                    Action::Settle0(2),
+                    Action::Deliver(1, 3),
+                    Action::Settle0(3),
+                    Action::Deliver(2, 1),
+                    Action::Settle0(1),
+                    Action::Deliver(1, 2),
+                    Action::Settle0(2),
+                    Action::Deliver(1, 3),
+                    Action::Settle0(3),
+                    Action::Timeout(3),
+                    Action::Settle0(3),
+                    Action::DeliverK(3, 1, 2),
+                    Action::Settle0(1),
+                    Action::Deliver(3, 2),
+                    Action::Settle0(2),
+                    Action::Deliver(2, 1),
+                    Action::Settle0(1),
+                    Action::Deliver(1, 2),
+                    Action::Settle0(2),
+                    Action::Deliver(2, 1),
+                    Action::Settle0(1),
+                    Action::DeliverK(1, 3, 1),
+                    Action::Settle0(3),
+                    Action::Deliver(1, 2),
+                    Action::Settle0(2),
+                    Action::Deliver(2, 1),
+                    Action::Settle0(1),
+                    Action::Deliver(3, 1),
+                    Action::Settle0(1),
+                    Action::Deliver(3, 1),
+                    Action::Settle0(1),
+                    Action::Deliver(3, 1),
+                    Action::Settle0(1),
+                ];
+            }
             s.lock_majority = if nn == 5 { vec![1, 2, 3] } else { vec![1, 2] };
             let minority: Vec<u8> = if nn == 5 { vec![4, 5] } else { vec![3] };
             s.timeoutable = minority.clone();
